@@ -1713,6 +1713,19 @@ impl DistributedTxCoordinator {
 
         let from_phase = tx.phase;
 
+        // The commit decision is final: once it has been taken (and logged) the
+        // transaction can only be completed, never aborted.
+        if matches!(from_phase, TxPhase::Committing | TxPhase::Committed) {
+            tracing::warn!(
+                tx_id = tx_id,
+                from_phase = ?from_phase,
+                "Abort refused: transaction already decided to commit"
+            );
+            return Err(ChainError::TransactionFailed(format!(
+                "transaction {tx_id} already decided to commit"
+            )));
+        }
+
         tracing::warn!(
             tx_id = tx_id,
             from_phase = ?from_phase,
@@ -1763,7 +1776,10 @@ impl DistributedTxCoordinator {
         let mut pending = self.pending.write();
         let timed_out: Vec<_> = pending
             .iter()
-            .filter(|(_, tx)| tx.is_timed_out())
+            // A transaction that already decided to commit must be completed, not timed out
+            .filter(|(_, tx)| {
+                tx.is_timed_out() && !matches!(tx.phase, TxPhase::Committing | TxPhase::Committed)
+            })
             .map(|(id, _)| *id)
             .collect();
 
